@@ -83,28 +83,57 @@ func runC06(c *core.Ctx) {
 							continue
 						}
 						calls := expectedCalls(s, g, ex0, nc.Cfg.Strat)
-						var plans [][]string
+						type plan map[world.CallKey]world.FaultKind
+						keyOf := func(ck string) world.CallKey {
+							var id int
+							dot := strings.IndexByte(ck, '.')
+							fmt.Sscanf(ck[:dot], "%d", &id)
+							return world.CallKey{Node: id, Field: ck[dot+1:]}
+						}
+						var plans []plan
 						for _, ck := range calls {
-							plans = append(plans, []string{ck})
+							for _, fk := range kinds {
+								plans = append(plans, plan{keyOf(ck): fk})
+							}
 						}
 						if c.Thorough() && len(calls) <= 10 {
 							for i := range calls {
 								for j := i + 1; j < len(calls); j++ {
-									plans = append(plans, []string{calls[i], calls[j]})
+									for _, fk := range kinds {
+										plans = append(plans, plan{keyOf(calls[i]): fk, keyOf(calls[j]): fk})
+									}
 								}
 							}
 						}
-						for _, plan := range plans {
-							for _, fk := range kinds {
-								faults := map[world.CallKey]world.FaultKind{}
-								for _, ck := range plan {
-									var id int
-									var f string
-									dot := strings.IndexByte(ck, '.')
-									fmt.Sscanf(ck[:dot], "%d", &id)
-									f = ck[dot+1:]
-									faults[world.CallKey{Node: id, Field: f}] = fk
+						// list accessor failures (only the root resolver has a list accessor that can fail), alone and together with
+						// every other single failing call: an element failing right before the accessor of the next one fails
+						if nc.Name == "AS/native" && (dist == 0 || c.Thorough()) {
+							for _, lk := range calls {
+								k := keyOf(lk)
+								if l, ok := g.ByID(k.Node).F[k.Field].([]interface{}); !ok || len(l) == 0 {
+									continue
 								}
+								plans = append(plans, plan{k: world.FaultNth})
+								for _, ck := range calls {
+									if ck != lk {
+										plans = append(plans, plan{k: world.FaultNth, keyOf(ck): world.FaultErr})
+									}
+								}
+							}
+						}
+						for _, faults0 := range plans {
+							{
+								faults := map[world.CallKey]world.FaultKind(faults0)
+								var planNames []string
+								fk := world.NoFault
+								for k, v := range faults {
+									planNames = append(planNames, fmt.Sprintf("%s:%d", k, int(v)))
+									if v > fk {
+										fk = v
+									}
+								}
+								sort.Strings(planNames)
+								plan := planNames
 								ex := world.RefExec(s, g, d, op, vars, faults, world.RefOpts{})
 								c.Eval()
 								deep := false
